@@ -12,9 +12,14 @@
 
 typedef long long i64;
 static int g_hashmode = 0;
+// keys are (equivalence class id, identity tag): hash / key_eq see the id only, operator== sees both (fix 4339d66)
+struct KeyT { int id; int tag; KeyT(int i = 0, int t = 0) : id(i), tag(t) {} };
+inline bool operator==(const KeyT& a, const KeyT& b) { return a.id == b.id && a.tag == b.tag; }
+inline bool operator<(const KeyT& a, const KeyT& b) { return a.id != b.id ? a.id < b.id : a.tag < b.tag; }
+struct EqId { bool operator()(const KeyT& a, const KeyT& b) const noexcept { return a.id == b.id; } };
 struct Hasher {
-	size_t operator()(int k) const noexcept {
-		unsigned long long x = (unsigned long long)(unsigned)k;
+	size_t operator()(const KeyT& key) const noexcept {
+		unsigned long long x = (unsigned long long)(unsigned)key.id;
 		switch (g_hashmode) {
 		case 0: return (size_t)x;
 		case 1: return 7;
@@ -26,12 +31,12 @@ struct Hasher {
 };
 template<size_t M> struct Settings : public momo::HashMultiMapSettings { static const size_t valueArrayMaxFastCount = M; };
 
-typedef std::allocator<std::pair<const int, i64>> Alloc;
+typedef std::allocator<std::pair<const KeyT, i64>> Alloc;
 template<typename Bucket, size_t M>
-using UMap = momo::stdish::unordered_multimap<int, i64, Hasher, std::equal_to<int>, Alloc,
-	momo::HashMultiMap<int, i64, momo::HashTraitsStd<int, Hasher, std::equal_to<int>, Bucket>, momo::MemManagerStd<Alloc>,
-		momo::HashMultiMapKeyValueTraits<int, i64, momo::MemManagerStd<Alloc>>, Settings<M>>>;
-typedef std::unordered_multimap<int, i64> Twin;
+using UMap = momo::stdish::unordered_multimap<KeyT, i64, Hasher, EqId, Alloc,
+	momo::HashMultiMap<KeyT, i64, momo::HashTraitsStd<KeyT, Hasher, EqId, Bucket>, momo::MemManagerStd<Alloc>,
+		momo::HashMultiMapKeyValueTraits<KeyT, i64, momo::MemManagerStd<Alloc>>, Settings<M>>>;
+typedef std::unordered_multimap<KeyT, i64, Hasher, EqId> Twin;
 
 static std::vector<std::string> split(const std::string& s, char c) {
 	std::vector<std::string> r; std::string cur;
@@ -57,10 +62,16 @@ static std::string run_case(int K, const std::vector<std::string>& ops) {
 		char c = w[0][0];
 		std::ostringstream ret;
 		switch (c) {
-		case 'i': {
-			auto it = (a[1] % 2) ? cur.insert(std::make_pair((int)a[0], a[1])) : cur.emplace((int)a[0], a[1]);
-			if (it->first != (int)a[0] || it->second != a[1]) oracle_fail("insert: returned iterator");
-			tc.insert({(int)a[0], a[1]}); ret << "ok"; break; }
+		case 'i': case 'j': {
+			// j,k,t,v inserts the key object (k,t); a present equivalent key keeps ITS identity (momo) -- the twin mirrors
+			// that by inserting with the identity already stored for the class
+			int k = (int)a[0]; int t = (c == 'j') ? (int)a[1] : 0; i64 v = (c == 'j') ? a[2] : a[1];
+			auto it = (v % 2) ? cur.insert(std::make_pair(KeyT(k, t), v)) : cur.emplace(KeyT(k, t), v);
+			if (it->first.id != k || it->second != v) oracle_fail("insert: returned iterator");
+			int stored = it->first.tag;
+			auto tf = tc.find(KeyT(k, 0));
+			if (tf != tc.end() && tf->first.tag != stored) oracle_fail("insert: identity of the stored key changed");
+			tc.insert({KeyT(k, stored), v}); ret << "ok"; break; }
 		case 'e': {
 			size_t n = cur.erase((int)a[0]); size_t tn = tc.erase((int)a[0]);
 			if (n != tn) oracle_fail("erase(key): returned count");
@@ -69,7 +80,7 @@ static std::string run_case(int K, const std::vector<std::string>& ops) {
 			int k = (int)a[0]; size_t i = (size_t)a[1];
 			if (i >= cur.count(k)) { ret << "skip"; break; }
 			auto it = std::next(cur.equal_range(k).first, (ptrdiff_t)i);
-			if (it->first != k) oracle_fail("equal_range iterator leaves the key");
+			if (it->first.id != k) oracle_fail("equal_range iterator leaves the key");
 			i64 v = it->second;
 			cur.erase(it);
 			if (!erase_one(tc, k, v)) oracle_fail("erase(pos): value not in twin");
@@ -94,9 +105,9 @@ static std::string run_case(int K, const std::vector<std::string>& ops) {
 		case 'w': cur.erase(cur.begin(), cur.end()); tc.clear(); ret << "ok"; break;
 		case 'f': {
 			i64 pa = a[0], pb = a[1], pm = a[2], pr = a[3];
-			size_t n = erase_if(cur, [&](const typename UM::const_reference& ref) { return pred(pa, pb, pm, pr, ref.first, ref.second); });
+			size_t n = erase_if(cur, [&](const typename UM::const_reference& ref) { return pred(pa, pb, pm, pr, ref.first.id, ref.second); });
 			size_t tn = 0;
-			for (auto it = tc.begin(); it != tc.end(); ) { if (pred(pa, pb, pm, pr, it->first, it->second)) { it = tc.erase(it); ++tn; } else ++it; }
+			for (auto it = tc.begin(); it != tc.end(); ) { if (pred(pa, pb, pm, pr, it->first.id, it->second)) { it = tc.erase(it); ++tn; } else ++it; }
 			if (n != tn) oracle_fail("erase_if: returned count");
 			ret << "n" << n; break; }
 		case 'c': cur.clear(); tc.clear(); ret << "ok"; break;
@@ -118,7 +129,7 @@ static std::string run_case(int K, const std::vector<std::string>& ops) {
 		line << " er=";
 		for (int k = 0; k < K; ++k) {
 			auto er = cur.equal_range(k);
-			std::vector<i64> vs; for (auto it = er.first; it != er.second; ++it) { if (it->first != k) oracle_fail("equal_range: foreign key"); vs.push_back(it->second); }
+			std::vector<i64> vs; for (auto it = er.first; it != er.second; ++it) { if (it->first.id != k) oracle_fail("equal_range: foreign key"); vs.push_back(it->second); }
 			std::sort(vs.begin(), vs.end());
 			auto ter = tc.equal_range(k);
 			std::vector<i64> tv; for (auto it = ter.first; it != ter.second; ++it) tv.push_back(it->second);
@@ -127,7 +138,7 @@ static std::string run_case(int K, const std::vector<std::string>& ops) {
 			if (!vs.empty()) { line << k << ":"; for (size_t i = 0; i < vs.size(); ++i) line << (i ? "," : "") << vs[i]; line << ";"; }
 		}
 		{ // whole iteration as multiset
-			std::vector<std::pair<int, i64>> p1, p2;
+			std::vector<std::pair<KeyT, i64>> p1, p2;
 			for (auto ref : cur) p1.push_back({ref.first, ref.second});
 			for (auto& kv : tc) p2.push_back({kv.first, kv.second});
 			std::sort(p1.begin(), p1.end()); std::sort(p2.begin(), p2.end());
